@@ -246,6 +246,9 @@ def _branch_and_price(
     rounded = _round_solution(x_vals, columns, demands, eps)
     if rounded is not None:
         best_solution, best_obj = rounded
+        if best_obj <= root_bound + eps:
+            # The rounded root plan already meets the root bound: nothing left to search for
+            return Result(best_solution, best_obj, 0, total_cg_iters, Status.OPTIMAL)
 
     tree: list[tuple[float, int, _BPNode]] = []
     counter = 0
@@ -256,8 +259,8 @@ def _branch_and_price(
     while tree and nodes_explored < max_nodes:
         _, _, node = heappop(tree)
 
-        # Prune by bound
-        if node.bound >= best_obj - eps:
+        # Prune by bound (the number of rolls is an integer, so a node's bound can be rounded up)
+        if ceil(node.bound - eps) >= best_obj - eps:
             continue
 
         # Convert column_bounds tuple to dict
